@@ -24,7 +24,7 @@ REQUIRED_PROBES = ["merge_breakpoints", "merger_iter"]
 REQUIRED_FEATURES = ["inputs:mixed-int-float-dtypes", "inputs:has-empty", "inputs:identical-support", "inputs:disjoint-support", "agg:max", "agg:min",
                      "agg:mean", "assoc", "refuse:binsize", "refuse:chromsizes", "refuse:variable-bins",
                      "refuse:storage-mode", "overflow:int32", "overflow:uint16", "overflow:fits-with-dtypes-override",
-                     "mode:square", "mode:symm", "mergebuf:1", "inputs:all-empty"]
+                     "mode:square", "mode:symm", "mergebuf:1", "inputs:all-empty", "via:cli-merge"]
 
 
 def plan(tier, seed):
@@ -140,8 +140,19 @@ def run_merge_case(ctx, shard, i, rng):
                     c.feature("inputs:disjoint-support")
                 if mb == 1:
                     c.feature("mergebuf:1")
-                cooler.merge_coolers(out, [uris[p] for p in perm], mergebuf=mb,
-                                     columns=["count", "score"] if two else None)
+                if x % 4 == 3:
+                    from click.testing import CliRunner
+                    from cooler.cli import cli
+                    args = ["merge", out] + [uris[p] for p in perm] + ["-c", str(mb)]
+                    if two:
+                        args += ["--field", "count", "--field", "score"]
+                    r = CliRunner().invoke(cli, args)
+                    c.feature("via:cli-merge")
+                    if r.exit_code != 0:
+                        raise (r.exception or RuntimeError(r.output[-300:]))
+                else:
+                    cooler.merge_coolers(out, [uris[p] for p in perm], mergebuf=mb,
+                                         columns=["count", "score"] if two else None)
                 keys, cols = read_pixels_raw(out, "/", ("count", "score"))
                 wk = sorted(want_sum)
                 ok = c.check(keys == wk, "merge-pixel-set-differs", "merged pixel set != union of the inputs' pixels",
@@ -194,6 +205,28 @@ def run_merge_case(ctx, shard, i, rng):
                     okv = got == [want[kk] for kk in wk]
                 c.check(okv, f"merge-values-differ:{agg}", f"merged column {col} != element-wise {agg}",
                         lambda: {"got": got[:30], "want": [want[kk] for kk in wk][:30]})
+    # a fractional aggregate does not fit an integer column: must raise or be stored exactly
+    cid = f"m:{shard['sub']}:{i}:agg-mean-int"
+    if ctx.want(cid) and k >= 2 and not mixed:
+        out = os.path.join(d, "agg_mean_int.cool")
+        with ctx.case(cid, dict(base_desc, agg="mean-on-int-column")) as c:
+            want = model.fold((kv for P in Ps for kv in sorted(P.items())), "mean")
+            fractional = any(float(v) != int(v) for v in want.values())
+            c.feature("agg:mean-on-int-column" + (":fractional" if fractional else ":integral"))
+            raised = None
+            try:
+                cooler.merge_coolers(out, uris, mergebuf=10**7, agg={"count": "mean"})
+            except Exception as e:  # noqa
+                raised = type(e).__name__
+            if raised is None:
+                keys, cols = read_pixels_raw(out, "/", ("count",))
+                got = dict(zip(keys, cols["count"].tolist()))
+                same = set(got) == set(want) and all(float(got[kk]) == float(want[kk]) for kk in want)
+                c.check(same, "fractional-aggregate-truncated:mean:int-column",
+                        "agg=mean on an integer column: fractional means were stored truncated without error",
+                        lambda: {"got": sorted(got.items())[:10], "want": sorted(want.items())[:10]})
+            else:
+                c.check(fractional, "integral-mean-refused", f"merge with agg=mean raised {raised} although every mean is integral")
     # associativity
     if k >= 3:
         cid = f"m:{shard['sub']}:{i}:assoc"
